@@ -260,3 +260,22 @@ from .. import order as _order  # noqa: E402
 _ORDER = _order.OrderSub("C04", "lie", lambda k: k.split('/')[-1] in ('Ad','ad'))
 SUBCHECKS["order"] = _ORDER
 REPLAY["order"] = _ORDER.replay
+
+
+# Euler groups of other conventions than the exported 3-2-1 body-fixed one (see mc/eulervar.py)
+class _EulerVar:
+    chunks = 1
+
+    def cases(self, tier, seed):
+        return [dict(sub="eulerconv", tier=tier, seed=seed)]
+
+    def run(self, case):
+        from .. import eulervar
+        res = core.Result()
+        eulervar.explore(res, case, "eulerconv", {"Ad", "to_Matrix", "act"}, core)
+        res.outcomes.add(int(res.counters.get("evaluations", 0)))
+        return res
+
+
+SUBCHECKS["eulerconv"] = _EulerVar()
+REPLAY["eulerconv"] = lambda c: _EulerVar().run(c).fails
